@@ -10,6 +10,19 @@ allocator in real runs; here it is a recorded scheduler decision.
 with ``weakref.finalize``), never gives two live objects the same key, and
 re-issues the key of a dead object when (and only when) asked to.  Every
 behaviour it produces is one CPython may produce.
+
+Soundness of re-issuing: an address can only pass from A to B if A died before
+B was *created*.  Keys are handed out lazily (at the first ``id()``/``hash()``
+call), so the creation time of B is not observed in general.  Two rules keep
+every decision legal:
+
+* ``born(obj)`` - the world calls this at the creation site of an object it
+  creates itself; every key in the free list belongs to an object that is
+  already dead, so any of them may be re-issued;
+* lazily keyed objects only re-use keys when the world enables
+  ``lazy_reuse`` (it then guarantees that every object first seen during an
+  operation was created during that operation), and then only keys freed
+  before the current operation began (``new_epoch()`` marks the boundary).
 """
 
 import weakref
@@ -23,21 +36,38 @@ class SimAlloc:
         self.next = base
         self.stride = stride
         self.reuse = False  # current policy, set per op by the world
+        self.lazy_reuse = False
+        self.epoch = 0
         self.issued = 0
         self.reused = 0
+
+    def new_epoch(self):
+        self.epoch += 1
 
     def _dead(self, oid, key):
         if self.live.get(oid) == key:
             del self.live[oid]
-            self.free.append(key)
+            self.free.append((key, self.epoch))
 
-    def key(self, obj):
+    def born(self, obj):
+        """Key for an object that is being created right now."""
+        return self.key(obj, _born=True)
+
+    def key(self, obj, _born=False):
         oid = id(obj)
         k = self.live.get(oid)
         if k is not None:
             return k
+        k = None
         if self.reuse and self.free:
-            k = self.free.pop()
+            if _born:
+                k = self.free.pop()[0]
+            elif self.lazy_reuse:
+                for i in range(len(self.free) - 1, -1, -1):
+                    if self.free[i][1] < self.epoch:
+                        k = self.free.pop(i)[0]
+                        break
+        if k is not None:
             self.reused += 1
             if self.stats is not None:
                 self.stats.fault("address_reuse")
